@@ -19,7 +19,7 @@ PROTO = {
     "name": "C02proto",
     "properties_file": "Properties/C02_protocol.v",
     "proof_files": ["Proofs/CopyImplBase.v", "Proofs/CopyImplInv.v", "Proofs/CopyImplInv2.v", "Proofs/CopyImplLive.v",
-                    "Proofs/CopyImplDeadlock.v", "Proofs/CopyImplFault.v", "Proofs/CopyImplTerm.v", "Proofs/CopyImplSucc.v", "Proofs/CopyImplSucc2.v"],
+                    "Proofs/CopyImplDeadlock.v", "Proofs/CopyImplFault.v", "Proofs/CopyImplTerm.v", "Proofs/CopyImplSucc.v", "Proofs/CopyImplSucc2.v", "Proofs/CopyImplOrder.v", "Proofs/CopyImplNoFault.v"],
     "model_files": ["Model/CopyImpl.v"],
     "extract": "XCopyImpl.v",
     "ml_main": "goimpl_main.ml",
@@ -35,7 +35,7 @@ PROTO = {
         "Go scheduler, memory model and wall-clock time are not modelled: 'bounded time' is proved as a bound on the number of protocol steps (bound = f(graph), independent of K) and observed on the real code with a 20 s watchdog",
         "the recorded event order is conservative (acquisitions logged after, releases/closes/failures logged before they take effect); the value returned by syncutil.Go is read before it can be logged: a trace in which that race is visible and cannot be repaired by moving the event is left UNJUDGED by the model (counted in model_unjudged) and judged by the oracle only",
     ],
-    "level_text": "PROTOCOL PART of C02/C04 (syncutil.Go, LimitedRegion.Start/End, status.Tracker, the skeleton of copyGraph.fn and of ExtendedCopyGraph's outer closure). Coq theorems over every interleaving, every fault placement and every cancellation point of a small-step LTS with explicit program counters, cancel-cause context tree, permits and done channels: permits conserved and End/Start idempotent (C04_permits_conserved, C04_*_idempotent), at most K tasks in a storage step (C04_inflight_bounded), every reachable non-final state has an enabled protocol step (C02_no_deadlock), a nat measure decreases on every step so every execution has at most bound(graph) steps (C02_terminates*), a fault or cancellation before completion makes the top-level call return an error (C02_fault_surfaces_protocol), and on success every root is Done, copied nodes have Done successors, nothing stays InProgress (C02_success_protocol). Tied to the code by driving the REAL syncutil.Go/LimitedRegion/Tracker with a scripted copy of copyGraph.fn on random OCI DAGs x K x fault plans x cancellation x latencies (recorded trace must be a run of the extracted LTS), by comparing the skeleton's storage-event multiset with the real oras.CopyGraph/ExtendedCopyGraph, and by an independent oracle on both (returns within the watchdog, error iff a fault/cancel fired, in-flight gauge <= K, no goroutine leak, no push before successors, closure present on success)",
+    "level_text": "PROTOCOL PART of C02/C04 (syncutil.Go, LimitedRegion.Start/End, status.Tracker, the skeleton of copyGraph.fn and of ExtendedCopyGraph's outer closure). Coq theorems over every interleaving, every fault placement and every cancellation point of a small-step LTS with explicit program counters, cancel-cause context tree, permits and done channels: permits conserved and End/Start idempotent (C04_permits_conserved, C04_*_idempotent), at most K tasks in a storage step (C04_inflight_bounded), every reachable non-final state has an enabled protocol step (C02_no_deadlock), a nat measure decreases on every step so every execution has at most bound(graph) steps (C02_terminates*), a fault or cancellation before completion makes the top-level call return an error (C02_fault_surfaces_protocol), on success every root is Done, copied nodes have Done successors, nothing stays InProgress (C02_success_protocol), at EVERY reachable state -- failed and cancelled executions included -- the push step of a task is enabled only when every successor is Done and copied nodes have Done successors (C02_push_after_done_protocol, C02_past_wait_successors_done_protocol, C02_copied_successors_done_protocol), and an execution without failing step and without cancellation that has ended returned nil (C02_nofault_returns_nil_protocol: with C02_terminates and C02_success_protocol this is 're-running it without faults completes the graph'). Tied to the code by driving the REAL syncutil.Go/LimitedRegion/Tracker with a scripted copy of copyGraph.fn on random OCI DAGs x K x fault plans x cancellation x latencies (recorded trace must be a run of the extracted LTS), by comparing the skeleton's storage-event multiset with the real oras.CopyGraph/ExtendedCopyGraph, and by an independent oracle on both (returns within the watchdog, error iff a fault/cancel fired, in-flight gauge <= K, no goroutine leak, no push before successors, closure present on success)",
     "level_note": "protocol part only; the spec-level part (CopySpec: destination link-closed at every instant, retry) is added by another builder. semaphore/errgroup/context are hand-modelled; wall-clock boundedness is observed (20 s watchdog), the theorem bounds the number of protocol steps; the trace acceptor infers the unobservable steps inside syncutil.Go (dispatch, skip) from the events around them",
     "technique": "machine-checked proof in Coq (invariants over a labelled transition system: permit conservation, context/ frame tree structure, failure propagation, ownership of in-progress nodes; rank-induction for deadlock freedom; potential function for termination) + trace acceptance of the real syncutil/tracker against the extracted model + differential run of the real CopyGraph + independent oracle",
     "explanation": "theorems about all interleavings/fault placements of the protocol LTS; the extracted LTS must accept the event traces of the real syncutil.Go/LimitedRegion/Tracker driven by a scripted copyGraph.fn; the real CopyGraph/ExtendedCopyGraph runs on the same cases under an independent oracle",
@@ -58,9 +58,11 @@ def _c02_spec_case(c):
 _SPEC_ASSUMPTIONS = [
     "SPEC-LEVEL PART: the theorems are about the visible-event transition system Model/CopyFault.v = Model/CopySpec.v (per-node phase, destination content, proxy cache, tag) + fault events (error of dst.Exists, src.Fetch, dst.Push/PushReference before or after the content was stored, of a user callback, of a prologue operation Resolve/MapRoot/Predecessors) + cancellation of the context at any moment; [faccepts] quantifies over every interleaving, every number and placement of faults, every cancellation point, every prefix",
     "what the code does with an error is modelled by hand: the failing task's node becomes Dead and nothing leaves Dead (the deferred close(done) is skipped when err != nil), the waiting parents are abandoned; syncutil.Go returning context.Cause(ctx) is modelled as 'Ret ok needs no cancellation, no prologue failure and no dead node'. Tied to copy.go / extendedcopy.go / limit.go on every run by trace acceptance of the recorded runs (a push of a parent of a dead node, or a successful return after a fault/cancel, is rejected) and by the independent oracle",
-    "ExtendedCopyGraph's outer fan-out is a virtual super-root: a node that is not content (hypothesis ext_ok: no store holds it), initially Waiting, whose successors are the roots; findRoots itself is C03's subject: the roots given to the model are the generator's ground truth (ancestors of the start node without predecessors)",
+    "ExtendedCopyGraph's outer fan-out is a virtual super-root: a node that is not content (hypothesis ext_ok: no store holds it), initially Waiting, whose successors are the roots; findRoots itself is C03's subject: the roots given to the model are the generator's ground truth (ancestors of the start node without predecessors, where a filtering FindPredecessors may cut the walk: nested roots -- a root reachable from another root -- are generated that way; Depth > 0 is not used because its root set depends on findRoots' visiting order)",
     "content.Successors = the generator's edge list (parameter g_succ); standing hypothesis as in C01: during the call the destination is written only by the call itself and never deletes, the source is immutable; mt_consistent (digest-keyed destinations) is a hypothesis of the push-ordering / completion theorems, not of C02_closed_always; the generators of this part produce no two nodes with one digest",
     "user callbacks return nil or an ordinary error: a user PreCopy answering oras.SkipNode (by design: the node is marked done WITHOUT being transferred, so a caller can make the destination non-closed on purpose) is outside the model and never generated; prepareCopy's own internal use of SkipNode (ReferencePusher root) is modelled",
+    "the error handling the models assume is tied to the source by the translator kind c02_srcfacts (Generated/GC02.v) + C02_source_facts: named result err, deferred close(done) only when err == nil, the wait's `case <-ctx.Done(): return ctx.Err()`, the errors of Exists / FindSuccessors / syncutil.Go / region.Start / copyNode / doCopyNode returned, exactly two `return nil` in copyGraph.fn, syncutil.Go = eg.Wait + cancel + `return context.Cause(ctx)`, task error cancels the group, skip when cancelled, LimitedRegion.Start returns Acquire's error, ExtendedCopyGraph's outer closure { region.End(); copyGraph(ctx, ...); region.Start() }: these are SYNTACTIC shapes (an equivalent rewrite needs the recogniser to be taught); there is still no refinement theorem CopyImpl -> CopySpec and the protocol harness drives a hand-written copy of fn (skel.fn) -- the facts above are what ties both models to copy.go besides trace acceptance",
+    "not generated (outside this check's tie, inside the property's quantifier): an error from Read()/Close() of a fetched stream in the middle of a transfer (the model has no event for it), a source that is a registry.ReferenceFetcher, MaxMetadataBytes overflow, file / remote stores, nil callbacks combined with faults (C01's CopyOpt elaboration is not used here), two nodes with one digest (twins: then closed_nodes, which ranges over stored NODES, says nothing about a digest-keyed store answering Exists for the twin -- C01's F12 region); cancellation comes from inside an operation, before the call, or (controlled schedules) at a quiescent point where every goroutine of the call is blocked -- not from a wall-clock timer",
     "a failing dst.Push stores the content only when the fault is injected after the real push (stored flag of PuX); a real store failing on its own is assumed not to have stored the content",
     "registry.Mounter destinations are exercised through an in-harness Mounter wrapper (PRNG decides whether a candidate repository has the blob), with faults at Mount (before / after the blob was mounted or uploaded: MtX), MountFrom, OnMounted and at PreCopy / src.Fetch inside Mount's getContent; not combined with ReferencePusher destinations (as in C01); 'bounded time' is the protocol part's theorem (C02_terminates) plus the 20 s watchdog here; goroutine scheduling: interleavings of visible events are quantified over, internal races are exercised (free-running goroutines with PRNG latencies and slow nodes, PRNG-controlled schedules under testing/synctest with slow nodes released last), not enumerated",
 ]
@@ -68,7 +70,7 @@ _SPEC_ASSUMPTIONS = [
 CONFIG = {
     "name": "C02",
     "properties_file": "Properties/C02.v",
-    "proof_files": ["Base/Prelude.v", "Proofs/CopySpec.v", "Proofs/CopyFault.v"],
+    "proof_files": ["Base/Prelude.v", "Proofs/CopySpec.v", "Proofs/CopyFault.v", "Proofs/CopyFnFacts.v"],
     "model_files": ["Generated/GC02.v", "Model/CopySpec.v", "Model/CopyTop.v", "Model/CopyFault.v"],
     "extract": "XC02.v",
     "ml_main": "c02_main.ml",
@@ -81,8 +83,8 @@ CONFIG = {
     "timeout_search": 1200,
     "parts": [PROTO],
     "assumptions": _SPEC_ASSUMPTIONS + PROTO["assumptions"],
-    "level_text": "SPEC-LEVEL PART: Coq theorems over every trace accepted by the fault-extended copyGraph transition system (all graphs, all link-closed initial destinations, all K, CopyGraph / Copy into Tagger and ReferencePusher destinations / ExtendedCopyGraph as a virtual super-root, all interleavings, any number of faults at Exists / Fetch / Push / Tag / Mount (before or after the side effect) / callbacks incl. MountFrom and OnMounted / prologue, cancellation at any point, every prefix): the destination is link-closed after every event (C02_closed_always, C02_closed_every_prefix); when a push completes -- also one that then reports an error -- every successor of the node is present (C02_push_after_successors); a fault or cancellation anywhere excludes the successful return and taint is never lost (C02_fault_surfaces, C02_fault_taints, C02_taint_persists, C02_tainted_only_error_return); a successful call holds everything reachable from all its roots (C02_success_complete) and so does any successful rerun after any failed / cancelled / abandoned first call (C02_retry_completes; C02_retry_completes_C01 states it with the rerun as a run of C01's fault-free system, to which C01_closure applies); without fault events the extended system accepts exactly the traces of C01/C04's system with the same final state (C02_conservative_over_CopySpec); Examples: a shared-successor DAG whose push fails after storing + rerun, an ExtendedCopyGraph run cancelled in flight + rerun, and the two traces of the classic bugs (parent of a failed node goes on; success after cancellation) are rejected. ExtendedCopyGraph is covered under both views of its fan-out (virtual super-root ext=true; CopySpec's c_xroots with ext=false): every theorem holds for both, the model runner requires the same verdict from both on every recorded trace, and a sample of cases is re-evaluated inside Coq with vm_compute (post_model hook). Tied to the code by trace acceptance of recorded faulty calls and of their fault-free reruns on random and shared-successor DAGs x API x K x stores x fault plans x schedules, and by an independent oracle: destination monitor at every completed push (generator's edge list), closure after every outcome, fired fault => error, watchdog, goroutines back to baseline, rerun completes (presence + bytes + tag). || " + PROTO["level_text"],
-    "level_note": "spec-level part: the error handling of copyGraph.fn (Dead phase, done channel not closed) is hand-modelled and tied by trace acceptance + oracle; Mounter only through the in-harness wrapper, not combined with ReferencePusher; stores exercised: memory and OCI layout as source and destination. || " + PROTO["level_note"],
+    "level_text": "SPEC-LEVEL PART: Coq theorems over every trace accepted by the fault-extended copyGraph transition system (all graphs, all link-closed initial destinations, all K, CopyGraph / Copy into Tagger and ReferencePusher destinations / ExtendedCopyGraph as a virtual super-root, all interleavings, any number of faults at Exists / Fetch / Push / Tag / Mount (before or after the side effect) / callbacks incl. MountFrom and OnMounted / prologue, cancellation at any point, every prefix): the destination is link-closed after every event (C02_closed_always, C02_closed_every_prefix); when a push completes -- also one that then reports an error -- every successor of the node is present (C02_push_after_successors); a fault or cancellation anywhere excludes the successful return and taint is never lost (C02_fault_surfaces, C02_fault_taints, C02_taint_persists, C02_tainted_only_error_return); a successful call holds everything reachable from all its roots (C02_success_complete) and so does any successful rerun after any failed / cancelled / abandoned first call (C02_retry_completes; C02_retry_completes_C01 states it with the rerun as a run of C01's fault-free system, to which C01_closure applies); without fault events the extended system accepts exactly the traces of C01/C04's system with the same final state (C02_conservative_over_CopySpec); Examples: a shared-successor DAG whose push fails after storing + rerun, an ExtendedCopyGraph run cancelled in flight + rerun, and the two traces of the classic bugs (parent of a failed node goes on; success after cancellation) are rejected. ExtendedCopyGraph is covered under both views of its fan-out (virtual super-root ext=true; CopySpec's c_xroots with ext=false): every theorem holds for both, the model runner requires the same verdict from both on every recorded trace, and a sample of cases is re-evaluated inside Coq with vm_compute (post_model hook). C02_nofault_no_error_return: a run without fault events is never tainted and cannot return an error; C02_source_facts: the error-handling shapes of copyGraph.fn / syncutil.Go / Start / the outer closure re-read from the source hold. Tied to the code by trace acceptance of recorded faulty calls and of their fault-free reruns on random, shared-successor and TWO-LEVEL-sharing DAGs (a shared non-leaf node whose successor is claimed elsewhere, a failing and a slow sibling) x nested roots x API x K x stores x fault plans x schedules, and by an independent oracle: destination monitor at every completed push (generator's edge list), closure after every outcome, fired fault => error, watchdog, goroutines back to baseline, rerun completes (presence + bytes + tag). || " + PROTO["level_text"],
+    "level_note": "clauses that are oracle-only: bytes identical after the retry (retry-bytes), wall-clock boundedness (watchdog), goroutines back to baseline; the monitor checks the successors right after the underlying Push returned (a successor stored during the push could hide a violation in free-running mode; under controlled schedules operations are atomic). spec-level part: the error handling of copyGraph.fn (Dead phase, done channel not closed) is hand-modelled and tied by trace acceptance + oracle; Mounter only through the in-harness wrapper, not combined with ReferencePusher; stores exercised: memory and OCI layout as source and destination. || " + PROTO["level_note"],
     "technique": "machine-checked proof in Coq (the C01 invariant of the per-node-phase transition system extended to fault / cancel events; taint monotonicity; closure at every prefix) + constants regenerated from copy.go + trace-acceptance correspondence of faulty runs and reruns + independent monitor oracle || " + PROTO["technique"],
     "explanation": "spec part: every recorded trace of a faulty CopyGraph/Copy/ExtendedCopyGraph call and of its fault-free rerun must be a run of Model/CopyFault.v with the same return value, destination content and tag; the oracle (destination monitor, closure, fault surfaces, hang, leak, rerun completes) uses the generator's ground truth only || protocol part: " + PROTO["explanation"],
 }
